@@ -554,6 +554,11 @@ static int pad_pkcs2(bn_t m, size_t *p_len, size_t m_len, size_t k_len,
 					bn_write_bin(h1, RLC_MD_LEN, t);
 					md_mgf(mask, k_len - RLC_MD_LEN - 1, h1, RLC_MD_LEN);
 					bn_read_bin(t, mask, k_len - RLC_MD_LEN - 1);
+					/* The mask can have more digits than the masked block. */
+					bn_grow(m, t->used);
+					while (m->used < t->used) {
+						m->dp[m->used++] = 0;
+					}
 					for (int i = 0; i < t->used; i++) {
 						m->dp[i] ^= t->dp[i];
 					}
@@ -561,6 +566,8 @@ static int pad_pkcs2(bn_t m, size_t *p_len, size_t m_len, size_t k_len,
 					for (int i = m_len - 1; i < 8 * k_len; i++) {
 						bn_set_bit(m, i - ((RLC_MD_LEN + 1) * 8), 0);
 					}
+					/* The digits were changed in place. */
+					bn_trim(m);
 					if (r == 1 && bn_is_zero(m)) {
 						result = RLC_OK;
 					}
@@ -917,7 +924,7 @@ int cp_rsa_ver(uint8_t *sig, size_t sig_len, const uint8_t *msg, size_t msg_len,
 #if CP_RSAPD == PKCS2
 	size = bn_bits(pub->crt->n) - 1;
 	if (size % 8 == 0) {
-		size = size / 8 - 1;
+		size = size / 8;
 	} else {
 		size = bn_size_bin(pub->crt->n);
 	}
